@@ -5,6 +5,14 @@ import (
 	"fmt"
 )
 
+// maxBlockDepth bounds how deep blocks can be nested within each other while
+// being executed (a block can reach itself again through block.Super).
+const maxBlockDepth = 1000
+
+// tagBlockDepthKey is the key of the current block nesting depth within the
+// per-execution node state.
+type tagBlockDepthKey struct{}
+
 type tagBlockNode struct {
 	name string
 }
@@ -31,6 +39,16 @@ func (node *tagBlockNode) Execute(ctx *ExecutionContext, writer TemplateWriter) 
 	}
 
 	// Determine the block to execute
+	state := ctx.getNodeState()
+	depth, _ := state[tagBlockDepthKey{}].(int)
+	if depth >= maxBlockDepth {
+		return ctx.Error(fmt.Sprintf("maximum block nesting depth reached (max is %v)", maxBlockDepth), nil)
+	}
+	state[tagBlockDepthKey{}] = depth + 1
+	defer func() {
+		state[tagBlockDepthKey{}] = depth
+	}()
+
 	blockWrappers := node.getBlockWrappers(tpl)
 	lenBlockWrappers := len(blockWrappers)
 
